@@ -143,6 +143,19 @@ def m_width(st):
     st.add("width-%s%d" % (kind, n), ok)
 
 
+def m_width_spelling(st):
+    """The width suffix is a decimal number in ASCII digits without a leading zero; look-alike spellings are no types."""
+    rng = st.rng
+    si = rng.randrange(len(st.sections))
+    text = rng.choice(["uint1\u0666", "uint\u0661\u0666", "int3\uff12", "float3\u0662", "uint08", "uint0x10", "uint1_6", "uint+8", "uint 8", "uint8.0", "uint1e1",
+                       "int\u00b2", "uint1\u00b2", "float\u2463", "void1\u0666", "void08", "uint8\u200b", "u\u0131nt8", "U\u0130NT8", "Uint8", "UINT8", "uint", "int", "float", "void"])
+    if text.startswith("void"):
+        st.insert(si, {"text": text, "type": None, "kind": "pad"})
+    else:
+        st.insert(si, {"text": "%s %s" % (text, st.fresh()), "type": None, "kind": "field"})
+    st.add("width-spelling-%s" % text.encode("ascii", "backslashreplace").decode(), False)
+
+
 def m_truncated_signed(st):
     si = st.rng.randrange(len(st.sections))
     if st.rng.random() < 0.5:
@@ -417,7 +430,7 @@ def m_port(st):
     st.add("port-%d-%s-%s-%s" % (p, "svc" if st.service else "msg", "std" if standard else "vnd", "unregulated-allowed" if st.allow_unregulated else "regulated-only"), ok)
 
 
-MUTATORS = [m_width, m_width, m_truncated_signed, m_void, m_void_misuse, m_capacity, m_capacity, m_attr_name, m_attr_name, m_const_name, m_short_name,
+MUTATORS = [m_width, m_width, m_width_spelling, m_truncated_signed, m_void, m_void_misuse, m_capacity, m_capacity, m_attr_name, m_attr_name, m_const_name, m_short_name,
             m_namespace_name, m_name_syntax, m_duplicate, m_same_name_other_section, m_union_arity, m_utf8_byte, m_deprecated_dependency,
             m_deprecated_dependency, m_mode, m_extent, m_extent, m_directive, m_directive, m_version, m_port, m_port]
 
